@@ -18,7 +18,7 @@ fn scheme_name(s: SignatureSchemes) -> &'static str {
 }
 fn msgs() -> Vec<Vec<u8>> {
     let mut v: Vec<Vec<u8>> = vec![vec![], vec![0], vec![0x80], b"test".to_vec()];
-    for l in [31usize, 32, 33, 127, 128, 129, 255, 256, 257, 4096] { v.push((0..l).map(|i| (i * 7 + 3) as u8).collect()); }
+    for l in [31usize, 32, 33, 127, 128, 129, 255, 256, 257, 4096, 65_536, 70_001] { v.push((0..l).map(|i| (i * 7 + 3) as u8).collect()); }
     v
 }
 fn keys_g1() -> Vec<SecretKey<G1>> {
@@ -58,12 +58,18 @@ pub fn candidates(prop: &str) -> Vec<Value> {
             }}}
         }
         "C05" => {
-            for g in ["G1", "G2"] { for k in 0..5 { for kind in ["pop_as_signature", "signature_as_pop", "pops_as_aggregate", "relabel_all", "pok_relabel", "ciphertext_relabel"] {
+            for g in ["G1", "G2"] { for k in 0..5 { for kind in ["pop_as_signature", "signature_as_pop", "pops_as_aggregate", "relabel_all", "multi_relabel", "pok_relabel", "ciphertext_relabel"] {
                 v.push(json!({"call": "domain_sep", "group": g, "key": k, "kind": kind}));
             }}}
         }
         "C06" => {
-            for g in ["G1", "G2"] { for s in schemes() { for n in [2usize, 3, 5] { for kind in ["honest", "permuted", "dup_msg", "drop_last", "alter_first_msg", "alter_last_key", "swap_msgs", "single", "mixed"] {
+            for g in ["G1", "G2"] { for s in schemes() { for n in [2usize, 3, 5] { for kind in ["honest", "permuted", "dup_msg", "dup_pair", "add_pair", "drop_last", "alter_first_msg", "alter_last_key", "swap_msgs", "single", "mixed"] {
+                v.push(json!({"call": "aggregate", "group": g, "scheme": scheme_name(s), "n": n, "kind": kind}));
+            }}}}
+        }
+        "C03" => {
+            // the draft's AggregateVerify: repeated (key, message) pairs are paired as often as they occur
+            for g in ["G1", "G2"] { for s in schemes() { for n in [2usize, 3] { for kind in ["honest", "dup_pair", "dup_msg"] {
                 v.push(json!({"call": "aggregate", "group": g, "scheme": scheme_name(s), "n": n, "kind": kind}));
             }}}}
         }
@@ -110,9 +116,13 @@ pub fn candidates(prop: &str) -> Vec<Value> {
             for g in ["G1", "G2"] { for s in [SignatureSchemes::Basic, SignatureSchemes::ProofOfPossession] { for (t, n) in [(2usize, 2usize), (2, 3), (3, 5), (4, 5), (5, 7)] { for kind in ["recombine", "partial_verify", "other_share", "too_few", "duplicate", "duplicate_any", "zero_id", "single", "empty", "mixed", "subsets", "bad_params"] {
                 v.push(json!({"call": "shares", "group": g, "scheme": scheme_name(s), "t": t, "n": n, "kind": kind}));
             }}}}
+            // large participant sets (the property's range is n <= 255)
+            for g in ["G1", "G2"] { for s in [SignatureSchemes::Basic, SignatureSchemes::ProofOfPossession] { for (t, n) in [(3usize, 40usize), (33, 36), (2, 255)] {
+                v.push(json!({"call": "shares", "group": g, "scheme": scheme_name(s), "t": t, "n": n, "kind": "recombine"}));
+            }}}
         }
         "C10" => {
-            for g in ["G1", "G2"] { for s in schemes() { for kind in ["complete", "other_challenge", "other_msg", "other_key", "tamper_u", "tamper_v", "ts_no_timeout", "ts_within", "ts_huge_timeout", "ts_elapsed", "ts_altered", "ts_future", "ts_max"] {
+            for g in ["G1", "G2"] { for s in schemes() { for kind in ["complete", "other_challenge", "other_msg", "other_key", "tamper_u", "tamper_v", "forged_id_response", "ts_no_timeout", "ts_within", "ts_huge_timeout", "ts_elapsed", "ts_altered", "ts_future", "ts_max"] {
                 v.push(json!({"call": "pok", "group": g, "scheme": scheme_name(s), "kind": kind}));
             }}}
         }
@@ -270,6 +280,12 @@ fn identity_inputs<C: BlsSignatureImpl + PartialEq>(c: &Value, keys: &[SecretKey
                 }
                 "agg_id_pk_last" => {
                     let a = match s { SignatureSchemes::Basic => AggregateSignature::<C>::Basic(sig_pt(&sig)), SignatureSchemes::MessageAugmentation => AggregateSignature::MessageAugmentation(sig_pt(&sig)), _ => AggregateSignature::ProofOfPossession(sig_pt(&sig)) };
+                    // ... also when every pair carries the same message (the sum of the keys then hides the identity key)
+                    if s != SignatureSchemes::Basic {
+                        if a.verify(&[(pk, m.clone()), (PublicKey(id_pk), m.clone())]).is_ok() || a.verify(&[(PublicKey(id_pk), m.clone()), (pk, m.clone())]).is_ok() {
+                            return Some("identity key in an aggregate list whose messages are all equal was accepted".into());
+                        }
+                    }
                     acc(a.verify(&[(pk, m.clone()), (PublicKey(id_pk), m2.clone())]).is_ok(), "identity key last in aggregate list")
                 }
                 _ => {
@@ -328,6 +344,20 @@ fn domain_sep<C: BlsSignatureImpl + PartialEq + Copy>(c: &Value, keys: &[SecretK
                 let o = &keys[(k + 1) % keys.len()]; let sg2 = o.sign(s, b"second").ok()?;
                 if let Ok(a) = AggregateSignature::<C>::from_signatures(&[mk::<C>(s2, sig_pt(&sg)), mk::<C>(s2, sig_pt(&sg2))]) { if a.verify(&[(pk, m.clone()), (o.public_key(), b"second".to_vec())]).is_ok() { return Some(format!("an aggregate of {} signatures verifies under the label {}", scheme_name(s), scheme_name(s2))); } }
             } } }
+            None
+        }
+        "multi_relabel" => {
+            let o = &keys[(k + 1) % keys.len()];
+            let mpk = MultiPublicKey::<C>::from_public_keys(&[pk, o.public_key()]);
+            for s in [SignatureSchemes::Basic, SignatureSchemes::ProofOfPossession] {
+                let ms = MultiSignature::<C>::from_signatures(&[sk.sign(s, &m).ok()?, o.sign(s, &m).ok()?]).ok()?;
+                if let Err(e) = ms.verify(mpk, &m) { return Some(format!("honest {} multi-signature rejected: {}", scheme_name(s), e)); }
+                let pt = *ms.as_raw_value();
+                for s2 in schemes() { if s2 != s {
+                    let q = match s2 { SignatureSchemes::Basic => MultiSignature::<C>::Basic(pt), SignatureSchemes::MessageAugmentation => MultiSignature::MessageAugmentation(pt), _ => MultiSignature::ProofOfPossession(pt) };
+                    if q.verify(mpk, &m).is_ok() { return Some(format!("a {} multi-signature verifies under the label {}", scheme_name(s), scheme_name(s2))); }
+                } }
+            }
             None
         }
         "pok_relabel" => {
@@ -396,6 +426,37 @@ fn aggregate<C: BlsSignatureImpl + PartialEq>(c: &Value, keys: &[SecretKey<C>]) 
                 let r = a.verify(&d);
                 match s { SignatureSchemes::Basic => if r.is_ok() { return Some("Basic accepted a list with a repeated message".into()); },
                           _ => if r.is_err() { return Some(format!("{} rejected repeated messages", scheme_name(s))); } }
+            }
+            None
+        }
+        "dup_pair" => {
+            // the signer at position i contributes the same (key, message) pair twice
+            for i in 0..n {
+                let mut sg = sigs.clone(); sg.push(sigs[i].clone());
+                let mut d = data.clone(); d.push(data[i].clone());
+                let a = AggregateSignature::<C>::from_signatures(&sg).ok()?;
+                let r = a.verify(&d);
+                match s { SignatureSchemes::Basic => if r.is_ok() { return Some("Basic accepted a list with a repeated (key, message) pair".into()); },
+                          _ => if let Err(e) = r { return Some(format!("{}: the aggregate over a list in which pair {} occurs twice is rejected (the draft pairs it twice): {}", scheme_name(s), i, e)); } }
+            }
+            None
+        }
+        "add_pair" => {
+            // a pair added to the producing list (a stranger's key, or the identity key, which adds nothing to
+            // the sum), at every position, for distinct messages and for one common message
+            let same: Vec<Vec<u8>> = vec![b"one common message".to_vec(); n];
+            for mv in [ms.clone(), same] {
+                if s == SignatureSchemes::Basic && mv[0] == mv[1] { continue; }
+                let sg: Vec<Signature<C>> = sks.iter().zip(mv.iter()).map(|(k, m)| k.sign(s, m).unwrap()).collect();
+                let a = AggregateSignature::<C>::from_signatures(&sg).ok()?;
+                let d: Vec<(PublicKey<C>, Vec<u8>)> = sks.iter().zip(mv.iter()).map(|(k, m)| (k.public_key(), m.clone())).collect();
+                if let Err(e) = a.verify(&d) { return Some(format!("honest aggregate rejected: {}", e)); }
+                for (who, extra) in [("a stranger's key", SecretKey::<C>::from_hash(b"stranger").public_key()), ("the identity key", PublicKey::<C>(<C as Pairing>::PublicKey::identity()))] {
+                    for pos in 0..=n { for em in [mv[0].clone(), b"an added message".to_vec()] {
+                        let mut d2 = d.clone(); d2.insert(pos, (extra, em));
+                        if a.verify(&d2).is_ok() { return Some(format!("the list with a pair added at position {} ({}) is accepted", pos, who)); }
+                    } }
+                }
             }
             None
         }
@@ -496,6 +557,18 @@ fn pok<C: BlsSignatureImpl + PartialEq + Copy>(c: &Value, keys: &[SecretKey<C>])
         "other_challenge" => if proof.verify(pk, &m, ProofCommitmentChallenge::<C>::from_hash(b"other")).is_ok() { Some("accepted for another challenge".into()) } else { None },
         "other_msg" => if proof.verify(pk, b"other message", y).is_ok() { Some("accepted for another message".into()) } else { None },
         "other_key" => if proof.verify(keys[4].public_key(), &m, y).is_ok() { Some("accepted for another key".into()) } else { None },
+        "forged_id_response" => {
+            // no signature at all: once the challenge is known, u = -(H(m) * y) with the identity as response
+            // satisfies the pairing equation trivially; the identity guard is what refuses it
+            if s == SignatureSchemes::MessageAugmentation { return None; }
+            let u = -sig_pt(&SecretKey::<C>(y.0).sign(s, &m).ok()?);
+            let id = <C as Pairing>::Signature::identity();
+            let forged = match s { SignatureSchemes::Basic => ProofOfKnowledge::<C>::Basic { u, v: id }, _ => ProofOfKnowledge::ProofOfPossession { u, v: id } };
+            if forged.verify(keys[4].public_key(), &m, y).is_ok() { return Some("a proof with the identity as response, made without any signature, verifies for a stranger's key".into()); }
+            let forged2 = match s { SignatureSchemes::Basic => ProofOfKnowledge::<C>::Basic { u: id, v: u }, _ => ProofOfKnowledge::ProofOfPossession { u: id, v: u } };
+            if forged2.verify(pk, &m, y).is_ok() { return Some("a proof with the identity as commitment verifies".into()); }
+            None
+        }
         "tamper_u" => if tamper(&proof, 0).verify(pk, &m, y).is_ok() { Some("modified u accepted".into()) } else { None },
         _ => if tamper(&proof, 1).verify(pk, &m, y).is_ok() { Some("modified v accepted".into()) } else { None },
     }
@@ -746,7 +819,9 @@ fn shares<C: BlsSignatureImpl + PartialEq + Copy>(c: &Value, keys: &[SecretKey<C
                 if Vec::<u8>::from(&sg) != Vec::<u8>::from(&whole) { return Some("partial signatures do not recombine byte-for-byte to the whole-key signature".into()); }
             }
             let mut rev = ps.clone(); rev.reverse();
-            if Signature::<C>::from_shares(&rev).ok()? != whole { return Some("recombination depends on share order".into()); }
+            match Signature::<C>::from_shares(&rev) { Ok(x) => if x != whole { return Some("recombination depends on share order".into()); }, Err(e) => return Some(format!("all {} partial signatures are refused: {}", n, e)) }
+            match PublicKey::<C>::from_shares(&pks) { Ok(x) => if x != pk { return Some("all public-key shares do not recombine to the public key".into()); }, Err(e) => return Some(format!("all {} public-key shares are refused: {}", n, e)) }
+            match SecretKey::<C>::combine(&sh) { Ok(x) => if x != *sk { return Some("all shares do not recombine to the key".into()); }, Err(e) => return Some(format!("all {} key shares are refused: {}", n, e)) }
             None
         }
         "partial_verify" => { for i in 0..n { if let Err(e) = ps[i].verify(&pks[i], &m) { return Some(format!("partial signature {} rejected by its own key share: {}", i + 1, e)); } } None }
